@@ -27,7 +27,7 @@ struct ChildResult
 inline void child_write(int fd, const std::string& s)
 {
   size_t off = 0;
-  while (off < s.size()) { ssize_t n = write(fd, s.data() + off, s.size() - off); if (n <= 0) break; off += (size_t)n; }
+  while (off < s.size()) { ssize_t n = ::write(fd, s.data() + off, s.size() - off); if (n <= 0) break; off += (size_t)n; }
 }
 
 template<class F> ChildResult run_child(F body, double timeout_s = 10., long mem_mb = 0, bool keep_output = false)
@@ -39,9 +39,9 @@ template<class F> ChildResult run_child(F body, double timeout_s = 10., long mem
   pid_t pid = fork();
   if (pid == 0)
   {
-    close(pfd[0]);
+    ::close(pfd[0]);
     signal(SIGSEGV, SIG_DFL); signal(SIGABRT, SIG_DFL); signal(SIGFPE, SIG_DFL); signal(SIGBUS, SIG_DFL);
-    if (!keep_output) { int nul = open("/dev/null", O_WRONLY); if (nul >= 0) { dup2(nul, 1); dup2(nul, 2); } }
+    if (!keep_output) { int nul = ::open("/dev/null", O_WRONLY); if (nul >= 0) { dup2(nul, 1); dup2(nul, 2); } }
     if (mem_mb > 0) { struct rlimit rl; rl.rlim_cur = rl.rlim_max = (rlim_t)mem_mb << 20; setrlimit(RLIMIT_AS, &rl); }
     struct rlimit core {0, 0}; setrlimit(RLIMIT_CORE, &core);
     int rc = 97;
@@ -49,10 +49,10 @@ template<class F> ChildResult run_child(F body, double timeout_s = 10., long mem
     catch (const std::bad_alloc&) { rc = 96; }   // reported as exit:96 = uncaught bad_alloc (the harness decides what it means)
     catch (const std::exception&) { rc = 95; }   // uncaught C++ exception escaping the library
     catch (...) { rc = 94; }
-    close(pfd[1]);
+    ::close(pfd[1]);
     _exit(rc);
   }
-  close(pfd[1]);
+  ::close(pfd[1]);
   auto t0 = std::chrono::steady_clock::now();
   char buf[65536];
   bool timed_out = false;
@@ -64,11 +64,11 @@ template<class F> ChildResult run_child(F body, double timeout_s = 10., long mem
     int pr = poll(&p, 1, (int)std::min(left * 1000. + 1, 1e6));
     if (pr < 0) { if (errno == EINTR) continue; break; }
     if (pr == 0) { timed_out = true; break; }
-    ssize_t n = read(pfd[0], buf, sizeof buf);
+    ssize_t n = ::read(pfd[0], buf, sizeof buf);
     if (n <= 0) break;  // EOF: child closed the pipe (exited)
     if (r.data.size() < (64u << 20)) r.data.append(buf, (size_t)n);
   }
-  close(pfd[0]);
+  ::close(pfd[0]);
   int st = 0;
   if (timed_out) { kill(pid, SIGKILL); waitpid(pid, &st, 0); r.kind = ChildResult::TIMEOUT; return r; }
   // EOF seen: the child is exiting; wait (bounded) for it
